@@ -115,6 +115,20 @@ func c06Check(ti typeInfo, a, b dpt.Datapoint, p []byte) (accepted bool, f *comm
 		return false, nil
 	}
 	q := packOwned(a)
+	if k := deref(a).Kind(); k == reflect.String || k == reflect.Slice {
+		// a value of a reference kind must own its bytes: decode from a copy of the payload, overwrite the copy (a
+		// receive loop refills its buffer), and the value still encodes as before
+		pc := append([]byte{}, p...)
+		if a.Unpack(pc) == nil {
+			for i := range pc {
+				pc[i] ^= 0x5a
+			}
+			if q2 := packOwned(a); !bytes.Equal(q2, q) {
+				return true, common.Failf("decoded-value-aliases-input", "%s: the value decoded from %x re-encodes as %x; after the buffer it was decoded from has been overwritten it re-encodes as %x",
+					ti.Name, p, q, q2)
+			}
+		}
+	}
 	if err := b.Unpack(q); err != nil {
 		return true, common.Failf("reencoded-rejected", "%s: payload %x decodes to %s, which re-encodes as %x, which the decoder rejects: %v",
 			ti.Name, p, showDP(a), q, err)
